@@ -1234,7 +1234,7 @@ def _design_checks(tier):
     w = 4 if tier == 'quick' else 6
     jobs = []
     for c in PF_CHECKS[tier]:
-        jobs.append(('check', 'MC_ParamFile.tla', c, {'workers': w, 'timeout': 3000, 'coverage': tier == 'thorough'}))
+        jobs.append(('check', 'MC_ParamFile.tla', c, {'workers': w, 'timeout': 3000, 'coverage': tier == 'thorough' and 'nolinkloss' in c}))
     for (b, _inv) in PF_BUGS:
         jobs.append(('bug', 'MC_ParamFile.tla', 'MC_ParamFile_bug_%s.cfg' % b, {'workers': 2, 'timeout': 900}))
     jobs += design_jobs_b(tier)
@@ -2205,7 +2205,8 @@ LH_BUGS = [('swapLeftRight', 'NoCreateNotAsConfigured'), ('noZrange', 'NoCreateN
 
 def design_jobs_b(tier):   # noqa: F811  (replaces the placeholder above)
     w = 4 if tier == 'quick' else 6
-    jobs = [('check', 'MC_LogHelper.tla', c, {'workers': w, 'timeout': 3000, 'coverage': tier == 'thorough'}) for c in LH_CHECKS[tier]]
+    jobs = [('check', 'MC_LogHelper.tla', c, {'workers': w, 'timeout': 3000, 'coverage': tier == 'thorough' and 'ranger' in c})
+            for c in LH_CHECKS[tier]]
     jobs += [('bug', 'MC_LogHelper.tla', 'MC_LogHelper_bug_%s.cfg' % b, {'workers': 2, 'timeout': 900}) for (b, _i) in LH_BUGS]
     return jobs
 
